@@ -208,7 +208,9 @@ def sweeps(tier, rng):
     zh = list(itertools.product(["none", "lowess", "savgol", "modsinc", "whithend", "auto"], ["akima", "makima", "cubic", "pchip", "auto"],
                                 [False, True], ["auto", "hann", None], [(3, 2), (5, 2), (5, 3), (7, 4), (5, 1)]))
     rng.shuffle(zh)
-    for sm, ip, adm, win, (npts, order) in zh[: (40 if tier == "quick" else 600)]:
+    # the corners where every choice is left to the library are always run, the rest is sampled
+    corners = [("auto", "auto", False, "auto", (5, 2)), ("auto", "auto", True, None, (5, 2)), ("auto", "makima", False, "hann", (5, 2)), ("savgol", "auto", True, "auto", (5, 2))]
+    for sm, ip, adm, win, (npts, order) in corners + zh[: (40 if tier == "quick" else 600)]:
         kw = dict(data=data, smoothing=sm, interpolation=ip, admittance=adm, num_points=npts, polynomial_order=order, num_procs=1)
         if win is None:
             kw["weights"] = np.linspace(0.0, 1.0, len(f))
@@ -226,8 +228,8 @@ def sweeps(tier, rng):
     weights = ["unity", "modulus", "proportional", "boukamp"]
     fits = list(itertools.product(methods + ["auto"], weights + ["auto"]))
     rng.shuffle(fits)
-    for m, wt in fits[: (8 if tier == "quick" else 50)]:
-        if tier == "quick" and "auto" in (m, wt):
+    for m, wt in [("auto", "auto")] + fits[: (8 if tier == "quick" else 50)]:
+        if tier == "quick" and "auto" in (m, wt) and (m, wt) != ("auto", "auto"):
             continue
         combos.append(("fit_circuit", pyimpspec.fit_circuit, dict(circuit=parse_cdc("R(RC)(RC)"), data=data, method=m, weight=wt, max_nfev=40, num_procs=1)))
     combos.append(("fit_circuit", pyimpspec.fit_circuit, dict(circuit=parse_cdc("R(RC)"), data=small, method=["leastsq", "nelder"], weight=["unity", "boukamp"], max_nfev=30, num_procs=1)))
